@@ -21,7 +21,7 @@ NOTES = {
  "C10-2": "missed at first; caught after reply size classes (small / large / huge) were added to TcpConn.tla and scripted pipelined orders are played on TCP and DoT",
  "C10-3": "missed at first; caught after the per-request OPT hygiene tier",
  "C12-1": "missed at first; caught after the minimisation-fallback stress case (root mishandles minimised probes; ever-deeper referrals below) was added to the topology tier",
- "C12-3": "MISSED: the per-object DNSKEY-candidate cap is a local check with no counter and no packet; nothing outside the validator observes it (a reply that needs more than the cap may still legitimately be either an answer found early or SERVFAIL)",
+ "C12-3": "missed for a long time (at the reply level an answer and a SERVFAIL are both legal); caught by the ObjLoop tier, which counts the operations per validation object through the production ledger adapter: 3 digests for one DS under max_dnskey_candidates=2",
  "C13-1": "missed at first; caught by the zone-failure pipeline tier (ZoneFail.tla over N-server zones, oracle from the scripted servers' own logs)",
  "C13-2": "missed at first; caught by the alias-completion failure outcome in the request-level tier",
  "C17-3": "missed at first; caught after the default-chain gate replay switched the client limiter on and sends a denied source a changing cookie",
@@ -50,8 +50,8 @@ NOTES = {
  "C05-r2-1": "missed by C05 (no ECS query below an RFC 8020 cut in its families), caught by C19 (EcsDenial.tla: a wire-born ECS query must not consume a shared cut)",
  "C01-r2-2": "missed by C01 and C04, caught by C06 (ComposedAD: AD only if every piece of a composed reply was validated, wire chase)",
  "C02-r2-1": "missed at first (one ordinary data type, so neighbouring bitmaps never differed); caught after TXT joined the type universe and zone wildtypes (wildcard {A}, covering owner {TXT}) was added",
- "C02-r2-2": "MISSED so far: needs two validations of one request tree wanting the same NSEC3 digest at once, the first parked inside the computation (HashMemo tier being built)",
- "C07-r2-1": "MISSED so far: needs a second query answered through a delegation's provisional cache entry while the first is parked resolving a glue-less NS host (DelegAssembly tier being built)",
+ "C02-r2-2": "missed at first; caught by the HashMemo tier (two validations of one request tree want the same NSEC3 digest, the first parked inside BeginNSEC3Hash: the second must wait, not read an empty digest)",
+ "C07-r2-1": "missed at first; caught by the DelegAssembly tier (query B answered through the provisional server set while query A is parked resolving a glue-less NS host)",
  "C07-r2-2": "missed at first (one stray datagram per exchange); caught after the pre-datagram kind flood (twelve wrong-ID datagrams echoing the right question)",
  "C11-r2-2": "missed by C11, caught by C13 (a capacity shed is request-local: never recorded, never served to others)",
  "C11-r2-3": "missed at first (no reply was ever refused by the kernel); caught by C10 and C11 after bursts holding a destination the kernel refuses (raw-socket source port 0): nobody may see a second copy",
